@@ -289,7 +289,7 @@ func runPreCase(w *gal.Writer, class, how string, content []dop, inRootVictim bo
 	f := apkfs.DirFS(filepath.Join(c.top, "root"))
 	hostView = "(Some " + c.dumpView(f, ".") + ")"
 	defer func() { hostView = "None" }()
-	extra := map[string]any{"populated_by": how, "in_root_victim": inRootVictim}
+	extra := map[string]any{"populated_by": how, "in_root_victim": inRootVictim, "content_before_the_fresh_dirfs": content}
 	if install {
 		var es []entry
 		for _, o := range ops {
